@@ -211,7 +211,7 @@ func (e *evaluator) compareRO(cs callSpec, q string, rk, rv fsx.Res) []finding {
 		}
 	default:
 		if rk.Val != rv.Val {
-			return []finding{{kind: "value", what: map[string]string{"Open+Read": "read", "ReadFile": "content", "ReadDir": "names"}[cs.Name]}}
+			return []finding{{kind: "value", what: map[string]string{"Open+Read": "read", "ReadFile": "content", "ReadDir": "names", "Chdir+probes": "inside", "Open+File.Chdir+probes": "inside"}[cs.Name]}}
 		}
 	}
 
@@ -806,6 +806,20 @@ func (e *evaluator) evalQuery(ci, mode, qrank int, comps []string, links []Link)
 func (w *world) callString(cs callSpec, q string) string {
 	if cs.Name == "Open+Read" {
 		return fmt.Sprintf("Open(%q)+Read(8)", q)
+	}
+
+	if cs.Enter != 0 {
+		var ps []string
+		for _, c := range enterProbes {
+			ps = append(ps, probeString(c))
+		}
+
+		how := fmt.Sprintf("Chdir(%q)", q)
+		if cs.Enter == 2 {
+			how = fmt.Sprintf("f = Open(%q); f.Chdir(); f.Close()", q)
+		}
+
+		return how + "; then " + strings.Join(ps, ", ") + "; then Chdir back"
 	}
 
 	return w.call(cs, q).String()
